@@ -146,6 +146,10 @@ def drive(case, use_jit):
     T = case["T"]
     rec = Recorder(modules=build_modules(case["mods"]))
     shapes = {a["name"]: jax.ShapeDtypeStruct(tuple(a["shape"]), _jdtype(a["dtype"])) for a in case["arrays"]}
+    if case.get("reinit_T"):
+        # the recorder was already initialised for a longer run (e.g. a compiled config placed again with a shorter
+        # simulation time): initialising the returned recorder again must behave like a fresh one
+        rec, _ = rec.init_state(input_shape_dtypes=shapes, max_time_steps=case["reinit_T"], backend="cpu")
     rec, state = rec.init_state(input_shape_dtypes=shapes, max_time_steps=T, backend="cpu")
     hist = make_history(case["seed"], T, case["arrays"])
     key = jax.random.PRNGKey(case["seed"] & 0xFFFF)
@@ -312,7 +316,10 @@ def enumerate_triples(ctx):
         step = len(lst) / n
         off = (ctx.seed * 7) % max(1, int(step))
         for i in range(n):
-            yield _triple_case(*lst[min(len(lst) - 1, int(i * step) + off)])
+            c = _triple_case(*lst[min(len(lst) - 1, int(i * step) + off)])
+            if i % 2:  # every other case of the slice runs on a recorder that was initialised before for a longer run
+                c = dict(c, reinit_T=c["T"] + 1 + (i + len(key)) % 7)
+            yield c
 
 
 def body_exhaustive(ctx, case):
@@ -359,7 +366,10 @@ def pipeline_strategy(draw, ctx):
             if n_arr == 2 and draw(st.integers(0, 2)) == 0:
                 d["exclude"] = [draw(st.sampled_from(["_H", "_E", "pml_H"]))]
             mods.append(d)
-    return {"T": T, "mods": mods, "arrays": arrays, "seed": draw(st.integers(0, 2**31 - 1))}
+    case = {"T": T, "mods": mods, "arrays": arrays, "seed": draw(st.integers(0, 2**31 - 1))}
+    if draw(st.integers(0, 2)) == 0:
+        case["reinit_T"] = T + draw(st.integers(1, 9))
+    return case
 
 
 def body_pipeline(ctx, case):
